@@ -31,9 +31,21 @@ CHECKS = {
  "C10": ("model_checking", "E1", "exhaustive enumeration (explicit-state grid) of comment layouts × rule kinds; reported range compared with the constructed position of key / tag",
          "full product of 8 host comment forms × 0..2 comment lines before and after the tag × multi-line tag × content on the tag's line × 3 indentations × multi-byte text × 8 rule kinds (sorted, sorted by regex group, unique, unique by regex group, pattern; line-count, check-lua, affects) × offending line 1..3 (12.6k applicable cases): the range must delimit exactly the offending key, or the start tag from `<` to `>`",
          "check-ai's range shares check-lua's code path and is exercised in C19", "§2 C10"),
+ "C11": ("model_checking", "E1+E2", "explicit-state search over repository configurations through the real CLI + choice-prefix DFS over block-map and validator-body orders through the library",
+         "every repository of ≤2 (thorough ≤3) blocks over 2 files × 11 rule combinations (each rule absent / satisfied / violated by construction) × 7 severity spellings: exit status 1 iff an error-severity diagnostic is expected, stderr one JSON object with every expected (file, block, code, severity) exactly once, root-relative keys, nothing printed without diagnostics, `list` exits 0 with all blocks; the same states under every block-map order × every order of the validator thread bodies (≈470k executions) for the exactly-once clause",
+         "which rules a block violates is fixed by construction (C06–C09 decide rule semantics)", "§2 C11"),
  "C12": ("model_checking", "E1", "explicit-state search (stateright) over well-nested kit files; in every state every single-tag damage is applied and the real code must fail naming the file",
          "for each grammar (all 39 suffixes) every well-nested file of ≤2 (thorough ≤3) kit segments × every tag × {deleted, duplicated, lost with its comment} × {alone, first, last, between healthy files} × {scan, list, diff, diff+glob}: the run must fail at parsing with an error naming the damaged file",
          "the all-lines-added diff emitter is validated against real git before the search; bounded scope", "§2 C12"),
+ "C13": ("fault_enumeration", "E1+E2", "exhaustive enumeration of malformation × position × placement × block-map order, middle position under every schedule of the validator seams; real CLI for status and message",
+         "81 malformations over every rule kind (unknown direction/format, non-numeric keys at each position, bad regex in 5 attributes, 16 bad line-count expressions, colon-less affects references, unknown severities, Lua script empty/missing/directory/invalid UTF-8/no validate, empty AI condition, missing key) × {alone, first, middle, last} × {same file, own file} × all map orders, the middle position under all schedules; every malformation × 3 placements through the real CLI: never exit 0, never a panic, always a message",
+         "the property's qualifiers are honoured (content present, violation present, block modified)", "§2 C13"),
+ "C14": ("model_checking", "E1", "exhaustive enumeration (explicit-state grid) of violating-validator subsets × layouts × flag subsets × block-map orders through the library with recording AI endpoint and logging Lua scripts; CLI for flag parsing",
+         "all 128 subsets of validators having a violating block × 3 layouts × {--disable, --enable} × flag sets (quick: sizes ≤2 and ≥6 everywhere, all 128 where all seven fire; thorough: all) × all map orders: codes = unrestricted codes minus / restricted to the named validators, status follows, no AI request and no Lua call from a switched-off validator; 17 flag spellings through the real CLI (repetition = union; both flags, unknown, padded, comma names rejected before validation)",
+         "which validator fires on which block is fixed by construction", "§2 C14"),
+ "C15": ("model_checking", "E1", "exhaustive enumeration (explicit-state grid) of trees × glob sets × ignore sets × diffs against a set-algebra reference; library over an in-memory tree + real CLI in real directories with hidden/git-ignored files, real git diffs, every cwd",
+         "245k library cases (all trees of ≤3 paths incl. directories named a and b, spaces, dots × 0..2 globs × 0..2 ignores × diff naming ≤2 files or nothing) and 3.5k CLI cases × every directory as cwd (16k runs) with hidden files, a .gitignore'd directory and real `git diff`: listed files = ((walk ∖ hidden ∖ git-ignored) ∩ globs ∪ diff files) ∖ --ignore",
+         "globset decides glob/path matching (same crate and options as the documented forms)", "§2 C15"),
  "C16": ("model_checking", "E1", "exhaustive enumeration (stateright grid) of suffix × name shape × -E mapping × content × mode against a reference suffix lookup and the kit's constructed blocks",
          "39 registered suffixes × 11 file-name shapes (x.S, x.y.S, hidden via diff, dotted directories, names with spaces, upper-cased, .bak, no dot, ~, doubled suffix, suffix as directory) × 4 `-E` mappings × {native probe, unbalanced probe, garbage} × {scan, diff, diff+glob}; mapped names must yield exactly the constructed blocks, unmapped names nothing and no error; CLI slice for -E parsing/validation (rejected before any file is read)",
          "reference lookup written from the property text; the registered-suffix table is cross-checked with the implementation's", "§2 C16"),
